@@ -285,6 +285,9 @@ pub struct FitObs<T: Sc> {
     pub stats: Option<StatsSummary<T>>,
     /// problem flavour handed in
     pub was_parallel: bool,
+    /// end of the model-seam events made by the library call itself: log[ev_from..lib_ev_to]
+    /// (what follows up to ev_to are the harness's own queries of the result)
+    pub lib_ev_to: usize,
 }
 
 #[derive(Clone, Debug)]
@@ -581,6 +584,7 @@ impl<T: Sc, F: Factory<T>> Runner<T, F> {
                             problem,
                             stats,
                             stats_obj,
+                            lib_events,
                         } = fs;
                         self.subject = Some(problem);
                         self.stats = stats_obj;
@@ -597,6 +601,7 @@ impl<T: Sc, F: Factory<T>> Runner<T, F> {
                             best_fit_is_vector,
                             stats,
                             was_parallel,
+                            lib_ev_to: ev_from + lib_events as usize,
                         }));
                     }
                     Err(e) => panic = Some(e),
@@ -612,6 +617,25 @@ impl<T: Sc, F: Factory<T>> Runner<T, F> {
                     }
                 }
             },
+            Op::Marathon { count, alphas } => {
+                let p = self.subject.as_mut().unwrap();
+                let vs: Vec<DVector<T>> = alphas
+                    .iter()
+                    .map(|a| DVector::from_iterator(a.len(), a.iter().map(|v| T::of(v.0))))
+                    .collect();
+                if !vs.is_empty() {
+                    // bounded by construction: one parameter application and one evaluation
+                    // (M closure calls for builder-made models) per update
+                    self.ctl.raise_cap(*count as u64 * (self.world.m() as u64 + 2));
+                    if let Err(e) = guarded(|| {
+                        for i in 0..*count as usize {
+                            p.set_params(&vs[i % vs.len()]);
+                        }
+                    }) {
+                        panic = Some(e);
+                    }
+                }
+            }
             Op::ResultView => {
                 let p = self.subject.as_ref().unwrap();
                 match guarded(|| p.result_view()) {
